@@ -101,7 +101,10 @@ WORDS = ["(bases 1 to 20)", "22-OCT-2019", "ds-DNA", "DNA", "mRNA", "Direct Subm
          "2019-10-22T10:00:00Z", "NC_000913.3", "circular", "Homo sapiens", "", "", "a", "CDS", "gene", "misc_feature", "pUC19", "E. coli", "lacZ alpha", "1..9", "+", "-", ".", "0",
          "blake3", "v1_DCD_", "join(1..2,4..5)", "x y  z", " lead", "trail ", "UPPER lower"]
 TRICKY = ["<b>&amp;</b>", "say \"hi\"", "back\\slash", "tab\there", "line\nbreak", "cr\rhere", "\x01\x02\x1f", "\x7f",
-          "/slash/", "{\"k\":[1,null]}", "null", "\\u0041", "  ", "�", "﻿bom", "%3B;=,", "sep\u2028para\u2029end", "nul\x00inside", "bs\x08ff\x0c", "\x08", "\x0c", "\x0b\x0e\x1b"]
+          "/slash/", "{\"k\":[1,null]}", "null", "\\u0041", "  ", "�", "﻿bom", "%3B;=,", "sep\u2028para\u2029end", "nul\x00inside", "bs\x08ff\x0c", "\x08", "\x0c", "\x0b\x0e\x1b",
+          # text that LOOKS like a JSON escape (backslash + letters, as plain characters): a writer that post-processes the
+          # encoded bytes (un-escaping \u003c / \u003e / \u0026 "for readability", seeded change C15-l) corrupts these
+          "\\u003c", "a\\u003eb", "\\u0026amp;", "\\u003c1..\\u003e200", "\\\\u003c", "\\n", "\\\"", "\\u2028", "x\\u0000y", "\\/", "\\ud83e\\uddec"]
 NONASCII = ["gène", "Ünal", "中文", "\U0001f9ec", "α-helix β", "naïve \U00010348", "퟿",
             "\U0010ffff", "\u0080߿ࠀ￿"]
 
